@@ -770,6 +770,7 @@ def correspond(ctx, model):
     leaf_models(ctx, model, rng)
     spectral_models(ctx, model, rng)
     closed_models(ctx, model, rng)
+    nested_views(ctx, model, rng)
     _mark("leaf-models")
     # 5. random derivation trees against the Lean model -------------------------------------------------------------
     ntrees = ctx.n(45, 90)
@@ -980,6 +981,73 @@ def leaf_models(ctx, model, rng):
         if diff is not None:
             ctx.disagree("adjoint.leaf_circ", {"h": D._js(hp.ravel()), "n": n, "k": kk, "hdt": hdt, "idt": idt}, "CircularConvolve dense matrices", diff)
 
+
+
+def nested_views(ctx, model, rng):
+    """EXHAUSTIVE scope of nested views: every word of length <= 3 over {T, H, conj, gram_op} applied to complex operators WITHOUT a
+    closed-form override (generic LinearOperator with automatic adjoint, CircularConvolve) and to the composite `B @ A.T` (words of
+    length <= 2): the real nested view vs `run` of the model on the measured leaves (whole tree), plus all C01 obligations of the
+    nested operator (theorem C01_view_algebra).  thorough: all words; quick: a seeded sample"""
+    import itertools
+
+    leaf_cfgs = [
+        G._seeded({"cls": "Generic", "m": 2, "n": 3, "idt": G.C128, "odt": G.C128}),
+        G._seeded({"cls": "CircularConvolve", "hshape": [2], "ishape": [3], "ndims": 1, "hdt": G.C128, "idt": G.C128}),
+        G._seeded({"cls": "Generic", "m": 2, "n": 3, "idt": G.C128, "odt": G.C128, "x": 1}),
+    ]
+    with warnings.catch_warnings():
+        warnings.simplefilter("ignore")
+        ops = [G.build(c) for c in leaf_cfgs]
+        lres = [D.check_operator(o, None) for o in ops]
+    wl = [leaf_wire_pq(r, True, True) for r in lres]
+    words = [w for k in (1, 2, 3) for w in itertools.product(["T", "H", "conj", "gram"], repeat=k)]
+    cases = [(i, w) for i in (0, 1) for w in words]
+    cases += [("comp", w) for k in (0, 1, 2) for w in itertools.product(["T", "H", "conj", "gram"], repeat=k)]
+    total = len(cases)
+    if not ctx.thorough:
+        cases = [cases[int(i)] for i in rng.permutation(total)[: ctx.n(12, total)]]
+    ctx.extra["nested_views"] = {"words_total": total, "words_run": len(cases)}
+    attr = {"T": lambda a: a.T, "H": lambda a: a.H, "conj": lambda a: a.conj(), "gram": lambda a: a.gram_op}
+    for base, w in cases:
+        with warnings.catch_warnings():
+            warnings.simplefilter("ignore")
+            if base == "comp":
+                # B @ A.T  with A = leaf 0 (3 -> 2), B = leaf 2 (3 -> 2):  (2 -> 3) then (3 -> 2)
+                A = ops[2] @ ops[0].T
+                tree = {"k": "comp", "a": {"k": "leaf", "i": 2}, "b": {"k": "T", "cplx": True, "a": {"k": "leaf", "i": 0}}}
+            else:
+                A = ops[base]
+                tree = {"k": "leaf", "i": base}
+            for v in w:
+                A = attr[v](A)
+                tree = {"k": v, "a": tree} if v != "T" else {"k": "T", "cplx": True, "a": tree}
+            res = D.check_operator(A, rng)
+        desc = {"nested": {"base": base if base == "comp" else leaf_cfgs[base]["cls"], "word": list(w)}}
+        ctx.case({"stream": "nested-views", "base": str(base), "word": ".".join(w)}, ("nested", str(base), w))
+        ctx.count(f"nested-views:len{len(w)}")
+        if res.get("RA") is None or not res["ok"]:
+            ctx.disagree("adjoint.nested_view", dict(desc, leaves=leaf_cfgs), _js(res["fails"]), "adjoint pair", oracle=nested_oracle)
+            continue
+        diff = compare_model(model, wl, T.wire_tree(tree), res, True, True)
+        if diff is not None:
+            ctx.disagree("adjoint.nested_view", dict(desc, leaves=leaf_cfgs), "dense matrices of the nested view", diff, oracle=nested_oracle)
+
+
+def nested_oracle(case):
+    c = case["nested"]
+    attr = {"T": lambda a: a.T, "H": lambda a: a.H, "conj": lambda a: a.conj(), "gram": lambda a: a.gram_op}
+    with warnings.catch_warnings():
+        warnings.simplefilter("ignore")
+        ops = [G.build(x) for x in case["leaves"]]
+        A = ops[2] @ ops[0].T if c["base"] == "comp" else next(o for o, x in zip(ops, case["leaves"]) if x["cls"] == c["base"])
+        for v in c["word"]:
+            A = attr[v](A)
+        bad = D.identity_on_random(A, np.random.Generator(np.random.PCG64(5)), k=6)
+        if bad is None:
+            r = D.check_operator(A, np.random.Generator(np.random.PCG64(6)))
+            for tag, det in r["fails"]:
+                return {"obligation": tag, "detail": det, "word": c["word"]}
+        return bad
 
 
 def closed_models(ctx, model, rng):
@@ -1444,11 +1512,85 @@ def _T_witness():
     return ("err" in r1) or ("err" in r2), f"A.T declares {np.dtype(Tt.input_dtype)}->{np.dtype(Tt.output_dtype)}; A.T(x) -> {r1}; A.T.H.adj(y) -> {r2}"
 
 
+PANEL_RULES = [
+    # (substring of a changed table row, classes of the grid, forms of the derived grid / "*" = every derived form)
+    ("XRayTransform3D", ["XRayTransform3D"], []),
+    ("XRayTransform2D", ["XRayTransform2D"], []),
+    ("_circconv", ["CircularConvolve"], ["*CircularConvolve"]),
+    ("_stack.py", ["VerticalStack", "DiagonalStack", "DiagonalReplicated", "FiniteDifference", "FiniteSum", "HaarTransform"], []),
+    ("_matrix.py", ["MatrixOperator"], ["*MatrixOperator"]),
+    ("_diag.py", ["Diagonal", "ScaledIdentity", "Identity"], ["*Diagonal", "*ScaledIdentity", "*Identity"]),
+    ("jacobian", ["Jacobian"], []),
+    ("vjp", ["Jacobian"], []),
+    ("linear_adjoint", ["Generic", "Slice", "Pad", "Sum", "DFT", "Convolve"], []),
+    ("_set_adjoint", ["Generic", "Slice", "Pad", "Sum", "DFT", "Convolve"], []),
+    ("__add__", [], ["add"]), ("__sub__", [], ["sub"]), ("__mul__", [], ["smul", "rsmul", "neg"]), ("__truediv__", [], ["sdiv"]),
+    ("_to_output_space", [], ["smul", "rsmul", "sdiv", "neg"]), ("__neg__", [], ["neg"]),
+    ("LinearOperator.T", [], ["T"]), ("LinearOperator.H", [], ["H"]), ("LinearOperator.conj", [], ["conj"]),
+    ("gram", [], ["gram"]), ("ComposedLinearOperator", [], ["comp"]), ("_wrap_add_sub", [], ["add", "sub"]),
+    ("LinearOperator.adj", [], ["*"]), ("LinearOperator.__call__", [], ["*"]), ("Operator.__call__", [], ["*"]),
+    ("override:", [], ["*"]),
+]
+
+
+def targeted_panel(changed):
+    """configurations that exercise the functions whose pinned table rows differ (ALL of them, not a sample)"""
+    classes, forms = set(), set()
+    for row in changed:
+        for sub, cl, fm in PANEL_RULES:
+            if sub in row:
+                classes.update(cl)
+                forms.update(fm)
+        if row.startswith("override:"):
+            classes.add(row.split(":", 1)[1])
+    panel = [c for c in G.grid() if c["cls"] in classes]
+    derived = G.derived_grid() + G.shortcut_grid()
+    if "*" in forms:
+        panel += derived[:: max(1, len(derived) // 400)]
+    else:
+        for f in forms:
+            if f.startswith("*"):
+                panel += [c for c in derived if f[1:] in (c["a"].get("cls"), c.get("b", {}).get("cls"))][:300]
+            else:
+                panel += [c for c in derived if c["form"] == f][:300]
+    return panel
+
+
 def search(ctx, model, why):
-    """oracle search on the implementation alone: the adjoint identity on random vectors over random grid
-    configurations, derived forms and trees (known findings excluded)"""
+    """failing-input search on the implementation alone.  After a broken generated obligation (`why`): the TARGETED panel - every
+    grid / derived configuration that exercises the functions whose pinned table rows differ, each with the exhaustive basis-pair
+    obligations and the random-vector oracle (and the x64-off worker for the X-ray classes).  Otherwise (thorough tier): the
+    adjoint identity on random vectors over random grid configurations and derived forms (known findings excluded)"""
     common.setup_scico()
     rng = ctx.rng
+    if why is not None:
+        changed = adjoint_translate.changed_rows()
+        ctx.extra["changed_table_rows"] = changed
+        panel = targeted_panel(changed)
+        ctx.count(f"search:targeted-panel:{len(panel)}")
+        for cfg in panel:
+            with warnings.catch_warnings():
+                warnings.simplefilter("ignore")
+                try:
+                    A = G.build(cfg)
+                except Exception as e:  # noqa: BLE001
+                    if cfg["cls"] != "Derived":
+                        return {"cfg": cfg, "construction_raised": repr(e)[:300], "changed_rows": changed}
+                    continue
+                r = D.check_operator(A, rng)
+            if r["ok"]:
+                continue
+            kid = classify_known(ctx, model, cfg, A, r)
+            if kid is not None and ctx.is_known(kid):
+                continue
+            bad = make_oracle()({"cfg": cfg}) or {"fails": _js(r["fails"])}
+            bad["cfg"], bad["changed_rows"] = cfg, changed
+            return bad
+        if any("XRay" in row for row in changed):
+            xr = [c for c in nox64_configs() if c["cls"].startswith("XRay")]
+            for r in run_nox64_worker(xr):
+                if "fail" in r:
+                    return {"cfg": xr[r["i"]], "x64_off": r["fail"], "changed_rows": changed}
     full = G.grid() + G.derived_grid()
     n = ctx.n(40, 300)
     for i in rng.permutation(len(full))[:n]:
@@ -1482,6 +1624,8 @@ def replay(ctx, model, case):
     c = case.get("case", case)
     if c.get("nox64"):
         r = nox64_oracle(c)
+    elif "nested" in c:
+        r = nested_oracle(c)
     elif c.get("types"):
         r = Y.total_oracle(c)
     elif "spectral" in c:
